@@ -27,6 +27,7 @@ DOMAINS = {
     'list3': ((), ('a', 'b', 'c')),
     'list1': ((), (1,)),
     'int': (((0, 3),), ()),
+    'int-single': (((7, 7),), ()),
     'int-wide': (((-5, 40),), ()),
     'int2': (((0, 1), (10, 12)), ()),
     'float1': (((0.5, 1.5),), ()),
@@ -44,6 +45,7 @@ def _alphabet(tier):
     extra = [cm.on_carrier([('REQUIRES', 'x', 'y')]),
              cm.on_carrier([('AND', 'x', ('OR', 'y', 'z')), ('EXCLUDES', 'x', 'z')]),
              cm.on_carrier([('XOR', 'x', 'y')]),
+             cm.on_carrier([('IMPLIES', 'x', ('EQUIVALENCE', 'y', 'z')), ('NOT', ('XOR', 'x', 'z'), None)]),
              sh.M(sh.F('Fa', [sh.R(1, 2, [sh.F('Bb'), sh.F('Dc')]), sh.R(1, 1, [sh.F('Ad', [sh.R(0, 1, [sh.F('Ee')])])])]))]
     # 4-feature models whose root owns a 2-child group and one grouped child has a child of its own:
     # same parent / children names / bounds as a 3-feature model of the alphabet, different subtree
@@ -52,7 +54,7 @@ def _alphabet(tier):
 
 
 def _sub_alphabet(alpha):
-    return alpha[:4] + alpha[10:12] + alpha[28:34:2] + alpha[-4:]
+    return alpha[:4] + alpha[10:12] + alpha[28:34:2] + alpha[-5:]
 
 
 def cases(tier, seed):
@@ -395,9 +397,17 @@ def _run_generation(model, leaves_only, pre, domkey, prefix):
     if fails:
         return None, fails
     ctl = Controller(prefix)
-    saved = gra.random
-    gra.random = ctl
     import random as _random
+    saved = {}
+    if getattr(gra, 'random', None) is _random or isinstance(getattr(gra, 'random', None), Controller):
+        saved['random'] = gra.random
+        gra.random = ctl
+    for fn in ('choice', 'randint', 'uniform', 'randrange', 'choices', 'sample', 'shuffle'):
+        cur = getattr(gra, fn, None)
+        if cur is not None and (getattr(cur, '__self__', None) is _random._inst or getattr(cur, '__func__', None) is getattr(Controller, fn, None)
+                                or getattr(cur, '__module__', None) == 'random'):
+            saved[fn] = cur
+            setattr(gra, fn, getattr(ctl, fn))
     _random.seed(len(prefix) * 7919 + sum(prefix))     # if the module bypasses the seam: still deterministic
     out = []
     try:
@@ -415,7 +425,8 @@ def _run_generation(model, leaves_only, pre, domkey, prefix):
         except Exception as exc:  # noqa: BLE001
             raised = exc
     finally:
-        gra.random = saved
+        for k, v in saved.items():
+            setattr(gra, k, v)
     if spec is None:
         if raised is None:
             out.append(Fail('missing-domain-not-reported', None))
